@@ -49,17 +49,7 @@ Definition thread_gone (sc : scenario) (s : state) (t : tid) : bool :=
 Definition p_no_leak (sc : scenario) (e : state * list state) : bool :=
   match snd e with
   | [] => implb (closers_returned sc (fst e))
-                (forallb (thread_gone sc (fst e)) [T_READER; T_USER; T_RPC])
-  | _ => true
-  end.
-
-(* the RPC poller: gone, or stranded on its `done <- data` *)
-Definition poller_stranded (s : state) : bool := Nat.eqb (pc_of s T_POLLER) P_SEND.
-Definition p_poller (sc : scenario) (e : state * list state) : bool :=
-  match snd e with
-  | [] => implb (closers_returned sc (fst e))
-                (exited_at (sys_of sc) (fst e) T_POLLER || poller_stranded (fst e)
-                 || Nat.eqb (pc_of (fst e) T_POLLER) 0 && negb (sc_user sc && is_nc (sc_kind sc)))
+                (forallb (thread_gone sc (fst e)) [T_READER; T_USER; T_RPC; T_POLLER])
   | _ => true
   end.
 
@@ -73,7 +63,7 @@ Definition p_graceful (sc : scenario) (s : state) : bool :=
         (exited_at (sys_of sc) s T_READER).
 
 Definition all_gone (sc : scenario) (s : state) : bool :=
-  closers_returned sc s && forallb (exited_at (sys_of sc) s) [T_READER; T_USER; T_RPC].
+  closers_returned sc s && forallb (exited_at (sys_of sc) s) [T_READER; T_USER; T_RPC; T_POLLER].
 
 Definition CLOSER_BOUND := 8.   (* number of program points of the longest closer *)
 
@@ -88,7 +78,6 @@ Definition ok_on (sc : scenario) (rs : list state) : bool :=
       && forallb (fun s => Nat.leb (pc_of s T_CLOSER1) CLOSER_BOUND
                            && Nat.leb (pc_of s T_CLOSER2) CLOSER_BOUND) rs)
   && forallb (p_no_leak sc) es
-  && forallb (p_poller sc) es
   && (is_block (sc_tc sc) || check_ef es (all_gone sc) EF_FUEL).
 
 Definition reach_of (sc : scenario) : list state := fst (reach (sys_of sc) FUEL).
@@ -120,7 +109,6 @@ Record ok_parts (sc : scenario) (rs : list state) : Prop := mkParts {
   op_bound : forallb (fun s => Nat.leb (pc_of s T_CLOSER1) CLOSER_BOUND
                                && Nat.leb (pc_of s T_CLOSER2) CLOSER_BOUND) rs = true;
   op_leak : forallb (p_no_leak sc) (edges (sys_of sc) rs) = true;
-  op_poller : forallb (p_poller sc) (edges (sys_of sc) rs) = true;
   op_gone : is_block (sc_tc sc) = true
             \/ check_ef (edges (sys_of sc) rs) (all_gone sc) EF_FUEL = true
 }.
@@ -129,7 +117,6 @@ Lemma ok_on_parts : forall sc rs, ok_on sc rs = true -> ok_parts sc rs.
 Proof.
   intros sc rs H. unfold ok_on in H. cbv zeta in H.
   apply andb_true_iff in H. destruct H as [H Hgone].
-  apply andb_true_iff in H. destruct H as [H Hpoll].
   apply andb_true_iff in H. destruct H as [H Hleak].
   apply andb_true_iff in H. destruct H as [H Hm].
   apply andb_true_iff in H. destruct H as [H Hef].
@@ -215,13 +202,14 @@ Qed.
 (* quiescent = no thread (environment included) has a step *)
 Definition quiescent (sc : scenario) (s : state) : Prop := succs (sys_of sc) s = [].
 
-(* no goroutine outlives Close (reader, NETCONF read loop, and also the user-side callers):
+(* no goroutine outlives Close (reader, NETCONF read loop, sendRPC's poller, and also the
+   user-side callers):
    in every quiescent state in which the Close calls have returned each of them is at Exit;
    for a transport whose blocked read stays blocked the reader may instead still be in the read *)
 Theorem no_leak : forall sc, in_scope sc = true ->
   forall sched, let s := exec (sys_of sc) sched in
     quiescent sc s -> closers_returned sc s = true ->
-    forall t, In t [T_READER; T_USER; T_RPC] -> thread_gone sc s t = true.
+    forall t, In t [T_READER; T_USER; T_RPC; T_POLLER] -> thread_gone sc s t = true.
 Proof.
   intros sc H sched s Hq Hr t Ht. destruct (parts_of sc H).
   rewrite forallb_forall in op_leak0.
@@ -235,7 +223,7 @@ Qed.
 Corollary no_leak_unblocking : forall sc, in_scope sc = true -> is_block (sc_tc sc) = false ->
   forall sched, let s := exec (sys_of sc) sched in
     quiescent sc s -> closers_returned sc s = true ->
-    forall t, In t [T_READER; T_USER; T_RPC] -> exited_at (sys_of sc) s t = true.
+    forall t, In t [T_READER; T_USER; T_RPC; T_POLLER] -> exited_at (sys_of sc) s t = true.
 Proof.
   intros sc H Hb sched s Hq Hr t Ht.
   pose proof (no_leak sc H sched Hq Hr t Ht) as P. unfold thread_gone in P.
@@ -249,22 +237,6 @@ Proof.
   intros sc H Hb sched. destruct (parts_of sc H).
   destruct op_gone0 as [G|G]; [rewrite Hb in G; discriminate|].
   exact (ef_sound label (sys_of sc) _ _ EF_FUEL op_closed0 G sched).
-Qed.
-
-(* the sendRPC poller goroutine is either gone or stranded on `done <- data` *)
-Theorem poller_gone_or_stranded : forall sc, in_scope sc = true ->
-  sc_kind sc = NETCONF -> sc_user sc = true ->
-  forall sched, let s := exec (sys_of sc) sched in
-    quiescent sc s -> closers_returned sc s = true ->
-    exited_at (sys_of sc) s T_POLLER = true \/ poller_stranded s = true.
-Proof.
-  intros sc H Hk Hu sched s Hq Hr. destruct (parts_of sc H).
-  rewrite forallb_forall in op_poller0.
-  specialize (op_poller0 _ (edge_of_exec sc sched _ op_closed0)).
-  unfold p_poller in op_poller0. cbn [fst snd] in op_poller0.
-  unfold quiescent in Hq. fold s in op_poller0. rewrite Hq, Hr, Hk, Hu in op_poller0.
-  cbn in op_poller0. rewrite andb_false_r, orb_false_r in op_poller0.
-  apply orb_true_iff in op_poller0. exact op_poller0.
 Qed.
 
 (* race freedom: the fixed code has no plain (unsynchronised) access to shared connection state
@@ -296,44 +268,110 @@ Theorem reader_remains_when_read_stays_blocked :
   goal_reader_remains (exec (sys_of sc_blocked_stays) w_reader_remains) = true.
 Proof. vm_compute. reflexivity. Qed.
 
-(* (2) sendRPC: the reply is found by the poller while the waiter leaves through the timer (or
-   d.errs): the poller blocks forever on `done <- data` *)
+(* ---------- the code BEFORE the two repairs e29178e / 985cf8a: refutations ---------- *)
+
+(* sendRPC before e29178e: the reply is found by the poller while the waiter leaves through the
+   timer (or d.errs): the poller blocks forever on `done <- data` *)
 Definition sc_rpc := mkSc NETCONF StBlocked TcEOF false true.
+Definition poller_stranded (s : state) : bool :=
+  Nat.eqb (pc_of s T_POLLER) P_SEND && is_parked s T_POLLER.
+Definition prefix_closers_returned (sc : scenario) (s : state) : bool :=
+  exited_at (prefix_sys_of sc) s T_CLOSER1 && exited_at (prefix_sys_of sc) s T_CLOSER2.
 Definition goal_poller_stranded (s : state) : bool :=
-  quiescent_b (sys_of sc_rpc) s && closers_returned sc_rpc s && poller_stranded s.
+  quiescent_b (prefix_sys_of sc_rpc) s && prefix_closers_returned sc_rpc s && poller_stranded s.
 Definition w_poller_stranded : sched :=
   Eval vm_compute in
-    match find (sys_of sc_rpc) goal_poller_stranded with Some w => w | None => [] end.
+    match find (prefix_sys_of sc_rpc) goal_poller_stranded with Some w => w | None => [] end.
 
-Theorem rpc_poller_can_be_stranded :
-  goal_poller_stranded (exec (sys_of sc_rpc) w_poller_stranded) = true.
+Theorem prefix_rpc_poller_can_be_stranded :
+  goal_poller_stranded (exec (prefix_sys_of sc_rpc) w_poller_stranded) = true.
 Proof. vm_compute. reflexivity. Qed.
 
-(* the same without any Close: it is a defect of sendRPC alone *)
+(* the same without any Close: it was a defect of sendRPC alone *)
 Definition goal_poller_stranded_noclose (s : state) : bool :=
-  poller_stranded s && exited_at (sys_of sc_rpc) s T_RPC && Nat.eqb (pc_of s T_CLOSER1) 0.
+  poller_stranded s && exited_at (prefix_sys_of sc_rpc) s T_RPC && Nat.eqb (pc_of s T_CLOSER1) 0.
 Definition w_poller_stranded_noclose : sched :=
   Eval vm_compute in
-    match find (sys_of sc_rpc) goal_poller_stranded_noclose with Some w => w | None => [] end.
-Theorem rpc_poller_can_be_stranded_without_close :
-  goal_poller_stranded_noclose (exec (sys_of sc_rpc) w_poller_stranded_noclose) = true.
+    match find (prefix_sys_of sc_rpc) goal_poller_stranded_noclose with Some w => w | None => [] end.
+Theorem prefix_rpc_poller_can_be_stranded_without_close :
+  goal_poller_stranded_noclose (exec (prefix_sys_of sc_rpc) w_poller_stranded_noclose) = true.
 Proof. vm_compute. reflexivity. Qed.
 
-(* (3) the System transport: the forced close assigns the plain field `fd` while the reader loads
-   it — a data race; and that is the only one: every racy state has a closer at the `t.fd = nil`
-   of a FORCED close (program point 8 of [system_closer_code]) *)
-Definition sys_fd1 := system_sys TcEOF false.
+(* the System transport before 985cf8a: the forced close assigns the plain field `fd` while the
+   reader loads it — a data race; and that was the only one: every racy state has a closer at the
+   `t.fd = nil` of a FORCED close (program point 8 of [prefix_system_closer_code]) *)
+Definition sys_fd1 := prefix_system_sys TcEOF false.
 Definition w_fd_race : sched :=
   Eval vm_compute in match find sys_fd1 (races sys_fd1) with Some w => w | None => [] end.
-Theorem system_fd_race : races sys_fd1 (exec sys_fd1 w_fd_race) = true.
+Theorem prefix_system_fd_race : races sys_fd1 (exec sys_fd1 w_fd_race) = true.
 Proof. vm_compute. reflexivity. Qed.
 
 Definition p_fd_forced (second : bool) (tc : tcb) (s : state) : bool :=
-  implb (races (system_sys tc second) s)
+  implb (races (prefix_system_sys tc second) s)
         (Nat.eqb (pc_of s T_CLOSER1) 8 || Nat.eqb (pc_of s T_CLOSER2) 8).
-Definition system_ok_on (second : bool) (tc : tcb) (rs : list state) : bool :=
-  check_closed (system_sys tc second) rs && forallb (p_fd_forced second tc) rs
+Definition psystem_ok_on (second : bool) (tc : tcb) (rs : list state) : bool :=
+  check_closed (prefix_system_sys tc second) rs && forallb (p_fd_forced second tc) rs
   && forallb p_no_panic rs.
+Definition psystem_reach (second : bool) (tc : tcb) : list state :=
+  fst (reach (prefix_system_sys tc second) FUEL).
+Lemma psystem_all_ok :
+  forallb (fun b2 => forallb (fun tc => psystem_ok_on b2 tc (psystem_reach b2 tc)) all_tcs)
+          all_bools = true.
+Proof. vm_cast_no_check (eq_refl true). Qed.
+
+Lemma psystem_ok_of : forall second tc, psystem_ok_on second tc (psystem_reach second tc) = true.
+Proof.
+  intros second tc.
+  assert (Hb : In second all_bools) by (destruct second; cbn; tauto).
+  assert (Ht : In tc all_tcs) by (destruct tc; cbn; tauto).
+  exact (proj1 (forallb_forall (fun tc => psystem_ok_on second tc (psystem_reach second tc)) all_tcs)
+               (proj1 (forallb_forall
+                         (fun b2 => forallb (fun tc => psystem_ok_on b2 tc (psystem_reach b2 tc)) all_tcs)
+                         all_bools) psystem_all_ok second Hb) tc Ht).
+Qed.
+
+Lemma psystem_ok_on_parts : forall second tc rs, psystem_ok_on second tc rs = true ->
+  check_closed (prefix_system_sys tc second) rs = true /\
+  forallb (p_fd_forced second tc) rs = true /\ forallb p_no_panic rs = true.
+Proof.
+  intros second tc rs A. unfold psystem_ok_on in A.
+  apply andb_true_iff in A. destruct A as [A Hp].
+  apply andb_true_iff in A. destruct A as [Hc Hf]. auto.
+Qed.
+
+Theorem prefix_system_fd_race_only_forced : forall second tc (sched : sched),
+  let s := exec (prefix_system_sys tc second) sched in
+  panic s = 0 /\
+  (races (prefix_system_sys tc second) s = true ->
+   pc_of s T_CLOSER1 = 8 \/ pc_of s T_CLOSER2 = 8).
+Proof.
+  intros second tc sched s.
+  destruct (psystem_ok_on_parts second tc _ (psystem_ok_of second tc)) as (Hc & Hf & Hp).
+  split.
+  - apply Nat.eqb_eq. exact (safety_all label _ _ p_no_panic Hc Hp sched).
+  - intros Hr.
+    pose proof (safety_all label _ _ (p_fd_forced second tc) Hc Hf sched) as P.
+    unfold p_fd_forced in P. fold s in P. rewrite Hr in P. cbn [implb] in P.
+    apply orb_true_iff in P. destruct P as [P|P]; apply Nat.eqb_eq in P; auto.
+Qed.
+
+(* ---------- the System transport, current code: fd guarded by fdLock ----------
+   The field accesses are still plain-access instructions, now inside Lock/Unlock of fdLock; the
+   checker decides that no reachable state co-enables two of them — for one or two Close calls,
+   graceful and forced, every transport-close behaviour.  Also: nothing panics, Close can always
+   return, and a returned Close has closed the file. *)
+Definition system_returned (second : bool) (tc : tcb) (s : state) : bool :=
+  exited_at (system_sys tc second) s T_CLOSER1 && exited_at (system_sys tc second) s T_CLOSER2.
+Definition p_system_closed (second : bool) (s : state) : bool :=
+  implb (Nat.eqb (pc_of s T_CLOSER1) S_RETURN || (second && Nat.eqb (pc_of s T_CLOSER2) S_RETURN))
+        (transport_closed s).
+Definition system_ok_on (second : bool) (tc : tcb) (rs : list state) : bool :=
+  let sy := system_sys tc second in
+  check_closed sy rs
+  && forallb (fun s => negb (races sy s)) rs
+  && forallb p_no_panic rs
+  && forallb (p_system_closed second) rs
+  && check_ef (edges sy rs) (system_returned second tc) EF_FUEL.
 Definition system_reach (second : bool) (tc : tcb) : list state :=
   fst (reach (system_sys tc second) FUEL).
 Lemma system_all_ok :
@@ -354,28 +392,44 @@ Qed.
 
 Lemma system_ok_on_parts : forall second tc rs, system_ok_on second tc rs = true ->
   check_closed (system_sys tc second) rs = true /\
-  forallb (p_fd_forced second tc) rs = true /\ forallb p_no_panic rs = true.
+  forallb (fun s => negb (races (system_sys tc second) s)) rs = true /\
+  forallb p_no_panic rs = true /\
+  forallb (p_system_closed second) rs = true /\
+  check_ef (edges (system_sys tc second) rs) (system_returned second tc) EF_FUEL = true.
 Proof.
-  intros second tc rs A. unfold system_ok_on in A.
+  intros second tc rs A. unfold system_ok_on in A. cbv zeta in A.
+  apply andb_true_iff in A. destruct A as [A He].
+  apply andb_true_iff in A. destruct A as [A Ht].
   apply andb_true_iff in A. destruct A as [A Hp].
-  apply andb_true_iff in A. destruct A as [Hc Hf]. auto.
+  apply andb_true_iff in A. destruct A as [Hc Hr]. auto.
 Qed.
 
-Theorem system_fd_race_only_forced : forall second tc (sched : sched),
-  let s := exec (system_sys tc second) sched in
-  panic s = 0 /\
-  (races (system_sys tc second) s = true ->
-   pc_of s T_CLOSER1 = 8 \/ pc_of s T_CLOSER2 = 8).
+Theorem system_race_free : forall second tc (sched : sched),
+  races (system_sys tc second) (exec (system_sys tc second) sched) = false /\
+  panic (exec (system_sys tc second) sched) = 0.
 Proof.
-  intros second tc sched s.
-  destruct (system_ok_on_parts second tc _ (system_ok_of second tc)) as (Hc & Hf & Hp).
+  intros second tc sched.
+  destruct (system_ok_on_parts second tc _ (system_ok_of second tc)) as (Hc & Hr & Hp & _ & _).
   split.
+  - pose proof (safety_all label _ _ (fun s => negb (races (system_sys tc second) s)) Hc Hr sched) as P.
+    cbv beta in P. apply negb_true_iff in P. exact P.
   - apply Nat.eqb_eq. exact (safety_all label _ _ p_no_panic Hc Hp sched).
-  - intros Hr.
-    pose proof (safety_all label _ _ (p_fd_forced second tc) Hc Hf sched) as P.
-    unfold p_fd_forced in P. fold s in P. rewrite Hr in P. cbn [implb] in P.
-    apply orb_true_iff in P. destruct P as [P|P]; apply Nat.eqb_eq in P; auto.
 Qed.
+
+Theorem system_close_completes : forall second tc (sched : sched),
+  (exists sched', system_returned second tc (exec (system_sys tc second) (sched ++ sched')) = true) /\
+  (p_system_closed second (exec (system_sys tc second) sched) = true).
+Proof.
+  intros second tc sched.
+  destruct (system_ok_on_parts second tc _ (system_ok_of second tc)) as (Hc & _ & _ & Ht & He).
+  split.
+  - exact (ef_sound label _ _ _ EF_FUEL Hc He sched).
+  - exact (safety_all label _ _ (p_system_closed second) Hc Ht sched).
+Qed.
+
+(* the plain accesses are really there (the theorem above is not vacuous) *)
+Lemma system_has_plain : forall second tc, no_plain (system_sys tc second) = false.
+Proof. intros second tc. destruct second, tc; reflexivity. Qed.
 
 (* ---------- ORIGINAL code: refutations by witness schedule ---------- *)
 
